@@ -157,6 +157,26 @@ func init() {
 			i.w.guards = append(i.w.guards, g)
 			return nil
 		},
+		"vPreemptAtLocks": func(i *interpreter, fr *frame, fn *ssa.Function, a []value) value {
+			i.w.preemptLeft = int(asInt64(a[0]))
+			i.w.usesSched = true
+			return nil
+		},
+		"vPreemptOn": func(i *interpreter, fr *frame, fn *ssa.Function, a []value) value {
+			mu, ok := a[0].(iface).v.(*value)
+			if !ok || mu == nil {
+				unsupported("vPreemptOn: argument must be a pointer to a mutex")
+			}
+			if i.w.preemptOn == nil {
+				i.w.preemptOn = map[*value]bool{}
+			}
+			i.w.preemptOn[mu] = true
+			return nil
+		},
+		"vJoin": func(i *interpreter, fr *frame, fn *ssa.Function, a []value) value {
+			i.joinAll()
+			return nil
+		},
 		"vReadOnly": func(i *interpreter, fr *frame, fn *ssa.Function, a []value) value {
 			g := guardRec{name: a[1].(string), ro: true}
 			switch o := a[0].(iface).v.(type) {
